@@ -982,6 +982,15 @@ def run_adf15(case, ctx):
                          lambda repo, tag: _check_repo_adf15(ctx, case, expected[:3], want_wl, el, q, repo, tag))
         env.check_sources(ctx)
         _check_repo_adf15(ctx, case, expected[:2], want_wl, el, q, env.repo_arg, "after-second/")
+        # ---- a revised file for the same lines (B: other tables, other grids, other wavelengths) into the SAME repository: it
+        # replaces what A stored for those lines - tables and wavelengths alike -; installing A once more brings A's back
+        with ctx.cut("install_adf15(second file, same repository)"):
+            install_b(env.repo_arg)
+        _check_repo_adf15(ctx, case2, expected2, want_wl2, el, q, env.repo_arg, "overwrite/second/")
+        with ctx.cut("install_adf15(first file again)"):
+            _install(ctx, "install_adf15", (el, qa), env, forms, header_format=hf)
+        _check_repo_adf15(ctx, case, expected[:3], want_wl, el, q, env.repo_arg, "overwrite/first-again/")
+        ctx.label("overwrite:same-repository")
 
 
 def _readers_adf15(expected, el, q, repo):
